@@ -58,11 +58,11 @@ Definition olstr_eqb (a b : option (list string)) : bool :=
 
 (* bits: 1 final tree; 2 paths() after some step; 4 Document reload;
    8 svg2paths on the saved file; 16 SaxDocument on the saved file *)
-Definition check_history (root : xel) (ops : list op) (obs_steps : list (list string))
+Definition check_history (c : cfg) (root : xel) (ops : list op) (obs_steps : list (list string))
            (obs_final : xel) (obs_reload : list string) (obs_svg2paths : option (list string))
-           (obs_sax : list string) : nat :=
-  let final := run ops root in
-  let steps := map (fun pre => dlist (doc_visible (run pre root))) (prefixes ops) in
+           (obs_sax : option (list string)) : nat :=
+  let final := run c ops root in
+  let steps := map (fun pre => dlist (doc_visible (run c pre root))) (prefixes ops) in
   let b1 := xel_eqb final obs_final in
   let b2 := (fix go (x y : list (list string)) : bool :=
                match x, y with
@@ -70,10 +70,10 @@ Definition check_history (root : xel) (ops : list op) (obs_steps : list (list st
                | a :: r, b :: s => lstr_eqb a b && go r s
                | _, _ => false
                end) steps obs_steps in
-  let saved := et_write final in
+  let saved := et_write c final in
   let b3 := lstr_eqb (fst (doc_read saved)) obs_reload in
   let b4 := olstr_eqb (option_map fst (svg2paths_read saved)) obs_svg2paths in
-  let b5 := lstr_eqb (fst (sax_read saved)) obs_sax in
+  let b5 := olstr_eqb (option_map fst (sax_read c saved)) obs_sax in
   ((if b1 then 0 else 1) + (if b2 then 0 else 2) + (if b3 then 0 else 4)
    + (if b4 then 0 else 8) + (if b5 then 0 else 16))%nat.
 
@@ -91,9 +91,9 @@ Definition no_xmlns (d : dict) : dict :=
 
 (* bits: 1 svg2paths d-strings/dicts; 2 Document; 4 SaxDocument (ElementTree
    consumes the xmlns declarations); 8 svg attributes of svg2paths2 *)
-Definition check_wsvg (ds : list string) (attrs : list dict) (svgattrs size : dict)
+Definition check_wsvg (c : cfg) (ds : list string) (attrs : list dict) (svgattrs size : dict)
            (o_s2p : option (list string * list dict)) (o_svg : option dict)
-           (o_doc : list string * list dict) (o_sax : list string * list dict) : nat :=
+           (o_doc : list string * list dict) (o_sax : option (list string * list dict)) : nat :=
   let f := wsvg_file ds attrs svgattrs size in
   let b1 := match svg2paths_read f, o_s2p with
             | Some (d, a), Some (d', a') => lstr_eqb d d' && ldict_eqb a a'
@@ -101,8 +101,11 @@ Definition check_wsvg (ds : list string) (attrs : list dict) (svgattrs size : di
             | _, _ => false
             end in
   let b2 := lstr_eqb (fst (doc_read f)) (fst o_doc) && ldict_eqb (snd (doc_read f)) (snd o_doc) in
-  let b3 := lstr_eqb (fst (sax_read f)) (fst o_sax)
-            && ldict_eqb (map no_xmlns (snd (sax_read f))) (snd o_sax) in
+  let b3 := match sax_read c f, o_sax with
+            | Some (d, a), Some (d', a') => lstr_eqb d d' && ldict_eqb (map no_xmlns a) a'
+            | None, None => true
+            | _, _ => false
+            end in
   let b4 := match svg2paths_svg_attributes f, o_svg with
             | Some a, Some a' => dict_eqb a a'
             | None, None => true
